@@ -111,7 +111,7 @@ func mangle(fn *ssa.Function) string {
 		if !ok || n.Obj().Pkg() == nil {
 			return ""
 		}
-		return capFirst(path.Base(n.Obj().Pkg().Path())) + "_" + n.Obj().Name() + "_" + fn.Name()
+		return capFirst(strings.ReplaceAll(path.Base(n.Obj().Pkg().Path()), "-", "_")) + "_" + n.Obj().Name() + "_" + fn.Name()
 	}
 	if fn.Pkg == nil || fn.Parent() != nil {
 		return ""
